@@ -391,7 +391,7 @@ var keywords = map[string]bool{
 	"package": true, "sort": true, "spec": true, "macro": true, "axiom": true, "lemma": true,
 	"ghost": true, "func": true, "iface": true, "property": true, "requires": true, "ensures": true,
 	"invariant": true, "modifies": true, "pure": true, "trusted": true, "aux": true, "inline": true,
-	"nobody": true, "replay": true, "const": true, "import": true, "fresh": true, "opt": true,
+	"nobody": true, "replay": true, "reveal": true, "const": true, "import": true, "fresh": true, "opt": true,
 }
 
 type directive struct {
@@ -567,6 +567,8 @@ func ParseFile(path string, pkg string) (*File, error) {
 				cur.Replay = d.text
 			case "fresh":
 				cur.Fresh = append(cur.Fresh, strings.Fields(d.text)...)
+			case "reveal":
+				cur.Reveal = append(cur.Reveal, strings.Fields(strings.ReplaceAll(d.text, ",", " "))...)
 			case "aux":
 				for _, l := range strings.Fields(d.text) {
 					cur.AuxLabels[l] = true
@@ -627,9 +629,14 @@ func parseClause(s string) (*Clause, error) {
 // func name(a Sort, b Sort) Sort [= expr]
 func parseSpecFunc(s string, macro bool) (*SpecFunc, error) {
 	s = strings.TrimSpace(s)
+	opaque := false
 	if !macro {
+		if strings.HasPrefix(s, "opaque ") {
+			opaque = true
+			s = strings.TrimSpace(s[7:])
+		}
 		if !strings.HasPrefix(s, "func ") {
-			return nil, fmt.Errorf("want: spec func name(...) Sort")
+			return nil, fmt.Errorf("want: spec [opaque] func name(...) Sort")
 		}
 		s = strings.TrimSpace(s[5:])
 	}
@@ -643,7 +650,7 @@ func parseSpecFunc(s string, macro bool) (*SpecFunc, error) {
 		return nil, err
 	}
 	p := &parser{toks: toks}
-	sf := &SpecFunc{Macro: macro}
+	sf := &SpecFunc{Macro: macro, Opaque: opaque}
 	func() {
 		defer func() {
 			if r := recover(); r != nil {
